@@ -180,3 +180,69 @@ func normDigits(s string) string {
 	}
 	return string(b)
 }
+
+// randMsgProps draws MQTT 5 application-message properties for a publish op (client or API). Each property is
+// present or absent independently; values include empty strings, binary correlation data and repeated user keys.
+func randMsgProps(rng *rand.Rand, op *sim.Op) {
+	if chance(rng, 0.5) {
+		op.ContentType = sim.Str(pick(rng, []string{"text/x", "", "application/json; charset=utf-8", "ü"}))
+	}
+	if chance(rng, 0.4) {
+		op.RespTopic = sim.Str(pick(rng, []string{"r", "reply/to/" + op.Payload, "a/b"}))
+	}
+	if chance(rng, 0.4) {
+		op.Corr = pick(rng, [][]byte{{}, {0}, {0xff, 0xfe, 0x00, 0x80}, []byte("corr-" + op.Payload)})
+	}
+	if chance(rng, 0.4) {
+		b := byte(rng.IntN(2))
+		op.PFmt = &b
+	}
+	if chance(rng, 0.5) {
+		n := 1 + rng.IntN(3)
+		for i := 0; i < n; i++ {
+			op.UserProps = append(op.UserProps, [2]string{pick(rng, []string{"k", "k", "key2", ""}), pick(rng, []string{"v", "", "value-" + op.Payload})})
+		}
+	}
+}
+
+// msgPropsMismatch compares the application properties of a PUBLISH received by an MQTT 5 client with those of the
+// publish op it is a copy of ("" = equal). Payload Format Indicator 0 and absent are the same value; Correlation
+// Data of length 0 and absent are told apart only when the publisher sent a non-empty value.
+func msgPropsMismatch(op *sim.Op, fromV5 bool, pk *mqttc.Packet) string {
+	var want mqttc.Props
+	if fromV5 {
+		want = mqttc.Props{ContentType: op.ContentType, ResponseTopic: op.RespTopic, CorrelationData: op.Corr, PayloadFormat: op.PFmt, User: op.UserProps}
+	}
+	got := mqttc.Props{}
+	if pk.Props != nil {
+		got = *pk.Props
+	}
+	str := func(p *string) string {
+		if p == nil || *p == "" {
+			return "<absent>" // gmqtt's Message holds these as plain strings: zero length and absent are one value
+		}
+		return fmt.Sprintf("%q", *p)
+	}
+	if str(want.ContentType) != str(got.ContentType) {
+		return fmt.Sprintf("content type %s, published %s", str(got.ContentType), str(want.ContentType))
+	}
+	if str(want.ResponseTopic) != str(got.ResponseTopic) {
+		return fmt.Sprintf("response topic %s, published %s", str(got.ResponseTopic), str(want.ResponseTopic))
+	}
+	if string(want.CorrelationData) != string(got.CorrelationData) {
+		return fmt.Sprintf("correlation data %x, published %x", got.CorrelationData, want.CorrelationData)
+	}
+	pf := func(p *byte) byte {
+		if p == nil {
+			return 0
+		}
+		return *p
+	}
+	if pf(want.PayloadFormat) != pf(got.PayloadFormat) {
+		return fmt.Sprintf("payload format indicator %d, published %d", pf(got.PayloadFormat), pf(want.PayloadFormat))
+	}
+	if fmt.Sprint(want.User) != fmt.Sprint(got.User) && !(len(want.User) == 0 && len(got.User) == 0) {
+		return fmt.Sprintf("user properties %q, published %q", got.User, want.User)
+	}
+	return ""
+}
